@@ -40,13 +40,24 @@ type OnceStress struct {
 	Modes   string `json:"modes"`   // once | poll | mixed
 	Path    string `json:"path"`    // all | hot (the subscription path: the whole target or the subtree of the hot leaves)
 	GlogV   int    `json:"glog_v"`
+	ACL     bool   `json:"acl,omitempty"` // the server is built WithACL (an ACL that admits everybody)
 }
+
+// admitAll is an access-control backend that admits every caller to every target.
+type admitAll struct{}
+
+func (admitAll) NewRPCACL(context.Context) (subscribe.RPCACL, error) { return admitAllRPC{}, nil }
+func (admitAll) Check(string, string) bool                           { return true }
+
+type admitAllRPC struct{}
+
+func (admitAllRPC) Check(string) bool { return true }
 
 func genOnceStress(seed int64) *OnceStress {
 	r := uint64(seed)*2862933555777941757 + 3037000493
 	next := func(n int) int { r = r*6364136223846793005 + 1442695040888963407; return int((r >> 33) % uint64(n)) }
 	return &OnceStress{Seed: seed, Hot: 1 + next(8), Static: next(4), Clients: 1 + next(4), Calls: 20 + next(60),
-		Modes: []string{"once", "poll", "mixed"}[next(3)], Path: []string{"all", "all", "hot"}[next(3)], GlogV: []int{0, 2, 2, 1, 3}[next(5)]}
+		Modes: []string{"once", "poll", "mixed"}[next(3)], Path: []string{"all", "all", "hot"}[next(3)], GlogV: []int{0, 2, 2, 1, 3}[next(5)], ACL: next(3) == 0}
 }
 
 // chanStream is a pb.GNMI_SubscribeServer whose Send hands the response to the reading client goroutine.
@@ -103,7 +114,11 @@ func runOnceStress(t *testing.T, sc *OnceStress) (rounds int64, err error) {
 			}
 		}()
 		c := cache.New([]string{"t0"})
-		srv, serr := subscribe.NewServer(c)
+		var sopts []subscribe.Option
+		if sc.ACL {
+			sopts = append(sopts, subscribe.WithACL(admitAll{}))
+		}
+		srv, serr := subscribe.NewServer(c, sopts...)
 		if serr != nil {
 			err = serr
 			return
